@@ -15,13 +15,77 @@ use std::collections::{BTreeMap, BTreeSet};
 // C14
 
 #[derive(Default)]
-pub struct C14;
+pub struct C14 {
+    /// the monitor's own record of the flags, derived only from ACCEPTED admin calls (never from the
+    /// stored flags, which are part of what is being checked)
+    paused: bool,
+    open: Vec<bool>,
+    registered: Vec<bool>,
+}
+
+impl C14 {
+    /// flags as the monitor knows them vs as the contracts report them
+    fn cross_check(&self, s: &Snap, r: &mut Report, seq: usize, after: &str) {
+        let mut bad: Vec<String> = vec![];
+        if s.eng.paused != self.paused {
+            bad.push(format!("engine pause flag is {} but accepted SetPause calls say {}", s.eng.paused, self.paused));
+        }
+        for (i, v) in s.vamms.iter().enumerate() {
+            if v.open != self.open[i] {
+                bad.push(format!("vamm{} reports open={} but accepted SetOpen/Shutdown calls say {}", i, v.open, self.open[i]));
+            }
+            if v.registered != self.registered[i] {
+                bad.push(format!("vamm{} IsVamm={} but accepted Add/RemoveVamm calls say {}", i, v.registered, self.registered[i]));
+            }
+        }
+        for b in bad {
+            let sig: String = b.chars().filter(|c| !c.is_ascii_digit()).collect();
+            r.violation("C14", "R0-flags-disagree-with-accepted-admin-calls", format!("R0|{}|{}", after, sig), b, seq);
+        }
+    }
+}
 
 impl Monitor for C14 {
     fn prop(&self) -> &'static str {
         "C14"
     }
+    fn begin(&mut self, _w: &World, s0: &Snap, _r: &mut Report) {
+        self.paused = s0.eng.paused;
+        self.open = s0.vamms.iter().map(|v| v.open).collect();
+        self.registered = s0.vamms.iter().map(|v| v.registered).collect();
+    }
     fn post(&mut self, w: &World, st: &Step, r: &mut Report) {
+        // pre-state flags as the monitor itself knows them
+        let (m_paused, m_open, m_reg) = (self.paused, self.open.clone(), self.registered.clone());
+        // update the shadow from accepted admin calls
+        if st.out.ok {
+            match &st.op {
+                Op::Engine { msg: eng::ExecuteMsg::SetPause { pause }, .. } => self.paused = *pause,
+                Op::Vamm { vamm, msg: vm::ExecuteMsg::SetOpen { open }, .. } => self.open[*vamm] = *open,
+                Op::Insurance { msg: ins::ExecuteMsg::AddVamm { vamm }, .. } => {
+                    if let Some(i) = w.vamm_idx(vamm) {
+                        self.registered[i] = true;
+                    }
+                }
+                Op::Insurance { msg: ins::ExecuteMsg::RemoveVamm { vamm }, .. } => {
+                    if let Some(i) = w.vamm_idx(vamm) {
+                        self.registered[i] = false;
+                    }
+                }
+                Op::Insurance { msg: ins::ExecuteMsg::ShutdownVamms {}, .. } => {
+                    for i in 0..self.open.len() {
+                        if self.registered[i] && st.post.vamms[i].cfg_insurance == w.insurance.as_str() {
+                            self.open[i] = false;
+                        }
+                    }
+                }
+                _ => {}
+            }
+            if matches!(st.op.kind(), "eng_set_pause" | "vamm_set_open" | "ins_add_vamm" | "ins_remove_vamm" | "ins_shutdown") {
+                r.count("R0-admin-calls-cross-checked");
+                self.cross_check(&st.post, r, st.seq, st.op.kind());
+            }
+        }
         let pre = &st.pre;
         let post = &st.post;
         // R4 registry well-formedness after every step
@@ -73,7 +137,7 @@ impl Monitor for C14 {
         let Some((_sender, msg, _)) = engine_msg(&st.op) else { return };
         let kind = st.op.kind();
         let vi = st.op.engine_vamm().and_then(|a| w.vamm_idx(a));
-        let paused = pre.eng.paused;
+        let paused = m_paused;
         let trading = matches!(kind, "open" | "close" | "deposit" | "withdraw");
         let keeper = matches!(kind, "liquidate" | "pay_funding");
         if !trading && !keeper {
@@ -81,7 +145,7 @@ impl Monitor for C14 {
         }
         let _ = msg;
         r.eval();
-        let (open, reg) = vi.map(|i| (pre.vamms[i].open, pre.vamms[i].registered)).unwrap_or((true, true));
+        let (open, reg) = vi.map(|i| (m_open[i], m_reg[i])).unwrap_or((true, true));
         r.case(format!("paused={}|open={}|registered={}|{}|{}", paused, open, reg, kind, outcome(&st.out)));
         // R1 pause
         if paused && trading {
@@ -703,6 +767,36 @@ impl Monitor for C18 {
 // ------------------------------------------------------------------------------------------
 // C20
 
+
+/// every stored ratio within [0,1], maintenance <= initial, TWAP interval within bounds, registered vAMMs share the engine's decimals
+fn bounds_violations(s: &Snap) -> Vec<String> {
+    let d = s.eng.decimals;
+    let mut bad: Vec<String> = vec![];
+    let e = &s.eng;
+    for (name, v) in [("initial", e.initial), ("maintenance", e.maint), ("partial", e.partial), ("liquidation_fee", e.liq_fee)] {
+        if v > d {
+            bad.push(format!("engine {} = {} > 1", name, v));
+        }
+    }
+    if e.maint > e.initial {
+        bad.push(format!("maintenance {} > initial {}", e.maint, e.initial));
+    }
+    for (i, v) in s.vamms.iter().enumerate() {
+        for (name, x) in [("toll", v.toll), ("spread", v.spread), ("fluctuation", v.fluct)] {
+            if x > v.decimals {
+                bad.push(format!("vamm{} {} = {} > 1", i, name, x));
+            }
+        }
+        if v.twap_interval < 60 || v.twap_interval > 604_800 {
+            bad.push(format!("vamm{} twap interval {}", i, v.twap_interval));
+        }
+        if v.registered && v.decimals != d {
+            bad.push(format!("vamm{} registered with decimals {} != engine {}", i, v.decimals, d));
+        }
+    }
+    bad
+}
+
 #[derive(Default)]
 pub struct C20;
 
@@ -713,29 +807,42 @@ impl Monitor for C20 {
     fn post(&mut self, w: &World, st: &Step, r: &mut Report) {
         let post = &st.post;
         let d = post.eng.decimals;
-        // R2 bounds after any step
-        let mut bad: Vec<String> = vec![];
-        let e = &post.eng;
-        for (name, v) in [("initial", e.initial), ("maintenance", e.maint), ("partial", e.partial), ("liquidation_fee", e.liq_fee)] {
-            if v > d {
-                bad.push(format!("engine {} = {} > 1", name, v));
-            }
-        }
-        if e.maint > e.initial {
-            bad.push(format!("maintenance {} > initial {}", e.maint, e.initial));
-        }
-        for (i, v) in post.vamms.iter().enumerate() {
-            for (name, x) in [("toll", v.toll), ("spread", v.spread), ("fluctuation", v.fluct)] {
-                if x > v.decimals {
-                    bad.push(format!("vamm{} {} = {} > 1", i, name, x));
+        // R2 / R3 bounds after any step, attributed to the step that introduced the bad value
+        let pre_bad = bounds_violations(&st.pre);
+        let bad: Vec<String> = bounds_violations(post).into_iter().filter(|b| !pre_bad.contains(b)).collect();
+        // R0: an accepted update stores exactly the provided fields and leaves the others alone
+        if st.out.ok {
+            let mut diffs: Vec<String> = vec![];
+            let chk = |diffs: &mut Vec<String>, name: &str, provided: Option<u128>, before: u128, after: u128| {
+                let want = provided.unwrap_or(before);
+                if after != want {
+                    diffs.push(format!("{}: provided {:?}, before {}, stored {}", name, provided, before, after));
                 }
+            };
+            match &st.op {
+                Op::Vamm { vamm, msg: vm::ExecuteMsg::UpdateConfig { base_asset_holding_cap, open_interest_notional_cap, toll_ratio, spread_ratio, fluctuation_limit_ratio, spot_price_twap_interval, .. }, .. } => {
+                    let (a, b) = (&st.pre.vamms[*vamm], &st.post.vamms[*vamm]);
+                    chk(&mut diffs, "holding_cap", base_asset_holding_cap.map(|x| x.u128()), a.holding_cap, b.holding_cap);
+                    chk(&mut diffs, "oi_cap", open_interest_notional_cap.map(|x| x.u128()), a.oi_cap, b.oi_cap);
+                    chk(&mut diffs, "toll", toll_ratio.map(|x| x.u128()), a.toll, b.toll);
+                    chk(&mut diffs, "spread", spread_ratio.map(|x| x.u128()), a.spread, b.spread);
+                    chk(&mut diffs, "fluctuation", fluctuation_limit_ratio.map(|x| x.u128()), a.fluct, b.fluct);
+                    chk(&mut diffs, "twap_interval", spot_price_twap_interval.map(|x| x as u128), a.twap_interval as u128, b.twap_interval as u128);
+                    r.count("R0-config-updates-cross-checked");
+                }
+                Op::Engine { msg: eng::ExecuteMsg::UpdateConfig { initial_margin_ratio, maintenance_margin_ratio, partial_liquidation_ratio, liquidation_fee, .. }, .. } => {
+                    let (a, b) = (&st.pre.eng, &st.post.eng);
+                    chk(&mut diffs, "initial", initial_margin_ratio.map(|x| x.u128()), a.initial, b.initial);
+                    chk(&mut diffs, "maintenance", maintenance_margin_ratio.map(|x| x.u128()), a.maint, b.maint);
+                    chk(&mut diffs, "partial", partial_liquidation_ratio.map(|x| x.u128()), a.partial, b.partial);
+                    chk(&mut diffs, "liquidation_fee", liquidation_fee.map(|x| x.u128()), a.liq_fee, b.liq_fee);
+                    r.count("R0-config-updates-cross-checked");
+                }
+                _ => {}
             }
-            if v.twap_interval < 60 || v.twap_interval > 604_800 {
-                bad.push(format!("vamm{} twap interval {}", i, v.twap_interval));
-            }
-            // R3 registered only with matching decimals
-            if v.registered && v.decimals != d {
-                bad.push(format!("vamm{} registered with decimals {} != engine {}", i, v.decimals, d));
+            for dmsg in diffs {
+                let name = dmsg.split(':').next().unwrap_or("").to_string();
+                r.violation("C20", "R0-accepted-update-not-stored-as-given", format!("R0|{}|{}", st.op.kind(), name), dmsg, st.seq);
             }
         }
         if matches!(st.op.kind(), "eng_update_config" | "vamm_update_config" | "ins_add_vamm") {
